@@ -507,4 +507,14 @@ def rule_break_preserves_meaning(ctx):
     rule_break(ctx)
 
 
-RULES = [rule_translation, rule_routing, rule_assembled, rule_fresh_rename, rule_definitions_survive_simplification, rule_break_preserves_meaning]
+def rule_admission_shared(ctx):
+    """the obligations are stated for admissible tasks only: the precondition checks (tightness, private recursion against the private predicates
+    of the *same* side, input / output discipline) must be enforced where C11 says they are - a recursive private definition that slips
+    through becomes an axiom of every problem"""
+    from . import c11
+    sub = type(ctx)(ctx.prop, ctx.tier, ctx.facts)
+    c11.rule_enforcement(sub)
+    ctx.obls.extend(sub.obls)
+
+
+RULES = [rule_translation, rule_routing, rule_assembled, rule_fresh_rename, rule_definitions_survive_simplification, rule_break_preserves_meaning, rule_admission_shared]
